@@ -391,7 +391,7 @@ def job_gspace(p: Dict[str, Any]) -> Dict[str, Any]:
 
     for ex in explore(body, start_prefix=prefix, stats=ExploreStats()):
         case = holder["case"]
-        if case is None or case["annot"] not in ("concrete", "sym1"):
+        if case is None or case["annot"] != "concrete":  # (the generator's sym1 mode reuses one symbol for unrelated extents)
             continue
         try:
             model = c02.to_model(case)
@@ -406,6 +406,12 @@ def job_gspace(p: Dict[str, Any]) -> Dict[str, Any]:
         out["graphs"] += 1
         if st.startswith("ok:"):
             out["values"] += int(st[3:])
+        elif st == "unloadable":
+            # the unoptimised graph loads: a type/shape complaint about the optimised one is a false annotation
+            s0, msg0 = G.ort_run(model, feeds)
+            s1, msg1 = G.ort_run(after, feeds)
+            if s0 == "ok" and s1 == "load_error" and any(t in str(msg1) for t in ("Type Error", "does not match expected type", "ShapeInferenceError", "Incompatible")):
+                probs = [f"graph: optimised model is rejected because of its annotations: {str(msg1)[:200]}"]
         if len(out["digests"]) < 400:
             out["digests"].append(G.model_digest(after)[:12])
         for pr in probs[:2]:
